@@ -38,6 +38,9 @@ CHECKS = {
                 tech="explicit-state exhaustive exploration of operation histories on the implementation"),
 }
 
+CHECKS["C10"] = dict(engine="E-SCHED", cat="model_checking",
+                     text="The controlled topological sort owns every tie-break of FlowGraph.__sort; the real __hoist and translator run on each order. Default tie-break: every specification of the compile-only corpus (order invariants + closure of the emitted text); a slice of ~70-300 specifications with rich graphs (partitioned, dynamic, flattened, metrics with every binding kind, cascades, accelerator files): every linear extension within d deviations (d=1 quick, d=2 thorough, complete when small), each checked for order invariants, closed text, equal acceptance across tie-breaks and correct results on the reference model.",
+                     note="deviation-bounded (completed bound reported per specification); the controlled Kahn scheduler reaches every linear extension and reproduces networkx's order when always answering 0", tech="stateless deviation-bounded schedule exploration of the implementation under a controlled scheduler")
 HWREF = "hardware alphabet of mc/spec/hw.py (one architecture skeleton, <= 2-3 component bindings per Einsum); stand-in Metrics/Traffic/Compute/Format/*Intersector models; reference HiFiber model"
 CHECKS["C11"] = dict(engine="E-SPEC x E-DATA", cat="exploration",
                      text="Base Einsums/mappings (matmul in several loop orders, shape/occupancy/flatten mappings, 3-operand product, sum, broadcast, convolution, gamma-like take cascade) x every combination of component bindings from the hardware alphabet (DRAM->Buffet lazy/eager with every evict-on, DRAM->Cache, compute, each intersector type on each co-iterated rank with each leader, sequencers, mergers) x formats; every accepted configuration is executed in metrics mode AND in plain mode on all presence patterns with inert stand-ins; tensors must equal the dense evaluation. Explicit output shapes are enforced by the (shape-aware) reference model.",
